@@ -9,6 +9,7 @@ from vmon import oracle as orc
 from vmon.checks.common import obs, fail
 
 SPLIT_WAITS = "seqs"   # worker: every fifth case is built from relative messages with rests split into adjacent waits
+DEGEN = "seqs"    # worker: every 37th case gets degenerate operands (gen.degenerate)
 SCALE = True   # worker: every fortieth case is blown up by scale_case below
 PROP = "C12"
 MONITORS = ["normalise", "merge", "conv"]
@@ -33,6 +34,27 @@ def scale_case(case, i):
     sp["notes"] = gen.big_notes(i, n=[200, 400, 900][(i // 40) % 3], chans=(ch,), pitches=(50, 52, 55, 57), lmin=1, lmax=40, gap=(0, 30))
     sp.pop("pad", None)
     case["again"] = None
+
+def degen_case(case, i):
+    # which of two different signatures saved on ONE tick by different sequences is "the one that was saved" is not defined by the
+    # property (make_case never produces that either): a degenerate operand keeps only signatures no other operand contests
+    seen = {}
+    for k, sp in enumerate(case["seqs"]):
+        if len({n[0] for n in sp["notes"]}) > 1 and len({n[1] for n in sp["notes"]}) < len(sp["notes"]):
+            # the loader puts a file track on one channel; one pitch sounding on two channels at once is not a well-formed
+            # single-channel track any more (same rule as in make_case: one channel per pitch)
+            for n in sp["notes"]:
+                n[0] = sp["notes"][0][0]
+            sp["notes"] = [n for j, n in enumerate(sp["notes"]) if all(m[1] != n[1] for m in sp["notes"][:j])]
+        keep = []
+        for e in sp["extra"]:
+            if e[0] in ("ts", "ks"):
+                val = tuple(e[2:])
+                if seen.setdefault((e[0], e[1]), val) != val:
+                    continue
+            keep.append(e)
+        sp["extra"] = keep
+
 
 def make_case(rng, i, tier):
     ntr = rng.randint(1, 4)
@@ -80,6 +102,10 @@ def make_case(rng, i, tier):
     if i % 4 == 3:
         again = [{"op": rng.choice(["transpose", "scale", "set_channel", "iter_rel_velocity_edit", "pad", "add_note"]),
                   "k": rng.choice([1, 2, -3, 5]), "s": rng.randrange(len(seqs))} for _ in range(rng.randint(1, 2))]
+    if i % 9 == 4:
+        # "integer-tick" sequences whose ticks are numpy integers (onsets computed with np.arange / np.cumsum)
+        for sp in seqs:
+            sp["np_ticks"] = ["int64", "int32"][(i // 9) % 2]
     return {"seqs": seqs, "again": again}
 
 
@@ -199,6 +225,8 @@ def run(case, ctx):
             if sorted(sig) != wsig:
                 fails.append(fail("writer.signature_events_in_file", {"track": k, "want": wsig[:4], "file": sorted(sig)[:4]}))
     nn = sum(len(e) for e in exp_notes)
+    if any(sq.get("np_ticks") for sq in case["seqs"]):
+        LOG.n("c12.numpy_tick_cases")
     if ts_all:
         LOG.n("c12.signature_cases")
     if ks_all:
